@@ -104,7 +104,10 @@ class LiquidError(Exception):
                 break
 
         if target_line_index == -1:
-            raise ValueError("index is out of bounds for the given string")
+            if not lines or index != len(text):
+                raise ValueError("index is out of bounds for the given string")
+            # The end of input. Point just past the last character.
+            target_line_index = len(lines) - 1
 
         # Line number (1-based)
         line_number = target_line_index + 1
